@@ -285,3 +285,44 @@ func VerifC17_Assembler() {
 	}
 }
 
+
+// VerifC17_T4PerGap: a three-block message whose inter-block gaps are each 0, T4 or T4+1ns: it is
+// delivered iff EVERY gap is within T4 (T4 is an inter-block timer: a long message may take longer
+// than T4 in total).
+func VerifC17_T4PerGap() {
+	vsymExpect("delivered")
+	vsymExpect("discarded")
+	const t4 = int64(45 * time.Second)
+	var clock int64
+	var frames [][]byte
+	dev := vsymU16() & 0x7FFF
+	a := newVAssembler(true, dev, time.Duration(t4), &clock, &frames)
+	gaps := [2]int64{}
+	for i := range gaps {
+		gaps[i] = []int64{0, t4, t4 + 1}[vsymChoose(3)]
+	}
+	sys := [4]byte{vsymU8(), 2, 3, 4}
+	mk := func(num uint16, last bool, b byte) block {
+		h := [10]byte{byte(dev >> 8), byte(dev), 0x81, 0x0B, byte(num >> 8), byte(num), sys[0], sys[1], sys[2], sys[3]}
+		if last {
+			h[4] |= 0x80
+		}
+		return block{header: h, body: wire.ChunkOf([]byte{b})}
+	}
+	vsymAssert(a.accept(mk(1, false, 0x11)) == nil, "accept-1")
+	clock += gaps[0]
+	vsymAssert(a.accept(mk(2, false, 0x22)) == nil, "accept-2")
+	clock += gaps[1]
+	vsymAssert(a.accept(mk(3, true, 0x33)) == nil, "accept-3")
+	if gaps[0] <= t4 && gaps[1] <= t4 {
+		vsymReach("delivered")
+		vsymAssert(len(frames) == 1, "message-with-every-gap-within-T4-delivered")
+		if len(frames) == 1 {
+			f := frames[0]
+			vsymAssert(len(f) == 13 && f[10] == 0x11 && f[11] == 0x22 && f[12] == 0x33, "three-block-message-intact")
+		}
+	} else {
+		vsymReach("discarded")
+		vsymAssert(len(frames) == 0, "message-with-a-gap-beyond-T4-not-delivered")
+	}
+}
